@@ -39,7 +39,9 @@ def run(run):
              "plus a scanner dictionary of operators, comment openers, numbers at the int64 / float64 range edges, variables, placeholders, URLs, constants, external commands; "
              "every text is first run through Scanner.Scan / parser.Parse / String() in child processes (re-exec of the stream binary, chunks of 1500, per-input deadline, heap limit, RLIMIT_AS): an input a child does not finish is confirmed alone and reported as law parser_does_not_terminate; the corpus (harness/cmd/c18/corpus.txt: one witness per known finding, one per repaired defect, external-command statements with open quotes / ${ at end of input) runs first on every seed; "
              "(b) parser.Parse under recover on SQL from parser_test.go and docs code blocks, token-level mutations (delete/duplicate/swap/inject/replace/truncate/splice/byte damage) and generated queries, all four modes; "
-             "(c) String() -> Parse -> String() fixpoint for every text that parses to one query expression, evaluation agreement for generated constant queries; "
+             "(c) structural comparison (positions ignored) of parse(print(t)) with t for every printable sub-tree of every statement (law print_parse_tree_differs), two select-list items with equal printed text but different trees (law distinct_trees_same_text), "
+             "a clause matrix covering every combination of the optional parts of each production (order item direction x NULLS position, LIMIT/FETCH x unit x restriction x OFFSET, DISTINCT, IGNORE NULLS, WITHIN GROUP, frames, join kind x NATURAL/USING/ON x LATERAL, set operators x ALL, WITH, FOR UPDATE, INTO; measured per parsed tree in stats clause:*), "
+             "evaluation agreement on two tables with NULLs and duplicates; String() -> Parse -> String() fixpoint for every text that parses to one query expression, evaluation agreement for generated constant queries; "
              "non-trivial = distinct (mode, token-kind sequence, outcome / statement types) or (rune classes, length band) or unary tree shape",
         trusted_base=BASE_TRUST + [
             "unicode.IsLetter/IsDigit tables (parameters of the theorems; driver instance = ASCII + fixed pool, checked against Go at harness start)",
